@@ -52,6 +52,7 @@ var trTargets = []trTarget{
 	{Pkg: evm + "x/evm/keeper", Recv: "StateTransition", Name: "preCheck"},
 	{Pkg: evm + "x/evm/keeper", Recv: "StateTransition", Name: "refundGas"},
 	{Pkg: evm + "x/evm/types", Name: "BinSearch", Fuel: "hi + 1"},
+	{Pkg: evm + "x/cpc/keeper", Recv: "erc20CustomPrecompiledContractRwTransferFrom", Name: "spendAllowance"},
 	{Pkg: evm + "types", Name: "BlockGasLimit"},
 	{Pkg: geth + "consensus/misc", Name: "CalcBaseFee"},
 	{Pkg: geth + "core", Name: "IntrinsicGas"},
@@ -394,12 +395,18 @@ func (f *fnCtx) pathOf(e ast.Expr) (pathVal, []ast.Expr, bool) {
 			if ok && args == nil {
 				var vals []ast.Expr
 				for _, a := range x.Args {
-					ak := f.kindOf(a)
-					if ak.k == kOpaque {
-						// an opaque argument (ctx, an address taken from another path, …) is not part of the key
-						if _, _, isPath := f.pathOf(a); !isPath {
+					ak := f.g.classifySafe(f.typeOf(a))
+					if ak.k == kOpaque || ak.k == kUnit {
+						// an opaque argument: the context is dropped, any other object names the accessor
+						// (GetAllowance(ctx, owner, spender) ↦ GetAllowance_owner_spender)
+						ap, aargs, isPath := f.pathOf(a)
+						if !isPath || aargs != nil {
 							return pathVal{}, nil, false
 						}
+						if ak.opaque == "types_Context" || ak.opaque == "context_Context" {
+							continue
+						}
+						p.segs[len(p.segs)-1] += "_" + strings.Join(append([]string{ap.root.Name()}, ap.segs...), "_")
 						continue
 					}
 					vals = append(vals, a)
